@@ -125,4 +125,325 @@ def gen(rng, tier, spec):
     return {'cfg': [mk] + sorted(thr), 'progs': progs, 'sched': sched}
 
 
-MONITORS = {}
+# ----------------------------------------------------------------------------- trace analysis (implementation side)
+
+SUBMIT = (DETACH, ASYNC)
+ACCESS = (DETACH, ASYNC, LOCK_SH, TRY_SH, TRY_SH_FOR, TRY_SH_UNTIL, LOAD)
+K_X_ACQ = (K['TRYLOCK'], K['TRYLOCK_FOR'], K['LOCK'])
+K_S_ACQ = (K['LOCK_SH'], K['TRYLOCK_SH'], K['TRYLOCK_SH_FOR'])
+K_TRYISH = (K['TRYLOCK'], K['TRYLOCK_FOR'], K['TRYLOCK_SH'], K['TRYLOCK_SH_FOR'])
+
+
+class Walk:
+    """One pass over an implementation trace: who owns the outer mutex, which functor runs, which op each event belongs to."""
+
+    def __init__(self, case, lines):
+        self.case = case
+        self.ev = [l for l in lines if len(l) == 5 and l[0] >= 0]
+        self.pos = [n for n, l in enumerate(lines) if len(l) == 5 and l[0] >= 0]
+        self.verdict = next((l[1] for l in lines if len(l) >= 2 and l[0] == -1), 3)
+        self.final = next((l[1:] for l in lines if len(l) >= 2 and l[0] == -2), None)
+        self.outer = None
+        for t, k, o, v, m in self.ev:
+            if k in (K['TRYLOCK'], K['TRYLOCK_FOR']) + K_S_ACQ:
+                self.outer = o
+                break
+        if self.outer is None:
+            for t, k, o, v, m in self.ev:
+                if k == K['LOCK']:
+                    self.outer = o
+                    break
+        self.problems = []      # (monitor name, text)
+        self.run()
+
+    def bad(self, name, text):
+        self.problems.append((name, text))
+
+    def run(self):
+        case, nt = self.case, len(self.case['progs'])
+        cap = shcap(case['cfg'])
+        owner, sharers = None, [0] * nt
+        opidx, cur_op, op_start = [-1] * nt, [None] * nt, [None] * nt
+        held = [0] * nt                 # owning client handles per thread
+        running = [None] * nt           # fid whose body the thread is in
+        slots = [dict() for _ in range(nt)]
+        inv, ret, call, wend, threw = {}, {}, {}, {}, set()
+        calls = {}
+        pay = 0
+        last_other = [None] * nt
+        cand = [None] * nt              # candidate settling access of each thread (see mon_stranded)
+        acq_pos = [None] * nt           # position of the thread's latest acquisition of the outer mutex still held
+        for i, (t, k, o, v, m) in zip(self.pos, self.ev):
+            # a candidate access of another thread is spoiled by any event of this thread
+            for u in range(nt):
+                if u != t and cand[u] is not None:
+                    cand[u] = None
+            if k == K['INVOKE']:
+                opidx[t] += 1
+                prog = case['progs'][t]
+                cur_op[t] = prog[opidx[t]] if opidx[t] < len(prog) else None
+                op_start[t] = i
+                op = cur_op[t]
+                if op is None or op[0] != v:
+                    self.bad('trace', 'invoke %d of thread %d does not match the program' % (v, t))
+                    continue
+                if op[0] in SUBMIT:
+                    inv[op[1]] = i
+                if op[0] in ACCESS:
+                    quiet = all(cur_op[u] is None for u in range(nt) if u != t) and all(h == 0 for h in held)
+                    if quiet:
+                        cand[t] = {'t': t, 'i': i, 'op': op, 'submitted': set(inv) - ({op[1]} if op[0] in SUBMIT else set())}
+                continue
+            op = cur_op[t]
+            if k in (K['RET'], K['CATCH']):
+                if op is not None:
+                    if op[0] in SUBMIT:
+                        ret[op[1]] = i
+                        if k == K['CATCH'] and not (op[0] == DETACH and op[1] in threw and call.get(op[1], -1) > op_start[t]):
+                            self.bad('exn', 'op %s of thread %d ended with an exception at line %d' % (op, t, i))
+                        if k == K['RET'] and op[0] == DETACH and op[1] in threw and call.get(op[1], -1) > op_start[t] and calls_by.get(op[1]) == t:
+                            self.bad('exn', 'modify_detach(%d) swallowed the exception of its functor on the direct path (line %d)' % (op[1], i))
+                        if op[0] == ASYNC:
+                            slots[t][op[2]] = op[1]
+                    elif k == K['CATCH']:
+                        self.bad('exn', 'op %s of thread %d ended with an exception at line %d' % (op, t, i))
+                    if op[0] in SHARED_OPS and k == K['RET'] and v == 1:
+                        held[t] += 1
+                        if cand[t] is not None and acq_pos[t] is not None:
+                            self.grant(cand[t], acq_pos[t], call, final=True)
+                    if op[0] == FUT_READY and op[1] in slots[t]:
+                        f = slots[t][op[1]]
+                        done = (f in wend and wend[f][0] < op_start[t]) or (f in threw and call[f] < op_start[t])
+                        if v == 0 and done:
+                            self.bad('future', 'future of functor %d not ready at line %d although the functor had finished' % (f, i))
+                        if v == 1 and not (f in wend or f in threw):
+                            self.bad('future', 'future of functor %d ready at line %d before the functor ran' % (f, i))
+                    if op[0] == FUT_GET and op[1] in slots[t]:
+                        f = slots[t][op[1]]
+                        done = (f in wend and wend[f][0] < op_start[t]) or (f in threw and call[f] < op_start[t])
+                        if v == -2:
+                            if done:
+                                self.bad('future', 'future of functor %d not ready at line %d although the functor had finished' % (f, i))
+                        else:
+                            del slots[t][op[1]]
+                            if v == -4:
+                                self.bad('future', 'future of functor %d holds a foreign exception (broken promise) at line %d' % (f, i))
+                            elif v == -3:
+                                if f not in threw:
+                                    self.bad('future', 'future of functor %d reports an exception the functor did not throw (line %d)' % (f, i))
+                            elif f in threw or f not in wend or wend[f][1] != v:
+                                self.bad('future', 'future of functor %d returned %d at line %d, the functor produced %s' % (f, v, i, wend.get(f)))
+                    if op[0] == LOAD and k == K['RET'] and v != last_read[t]:
+                        self.bad('payload', 'load of thread %d returned %d at line %d but read %s' % (t, v, i, last_read[t]))
+                # at top level a thread owns the outer mutex only through a client handle on a plain mutex
+                if owner == t and not (not cap and held[t] > 0):
+                    self.bad('lock_leaked', 'thread %d is back at top level at line %d and still owns the outer mutex' % (t, i))
+                cur_op[t] = None
+                if cand[t] is not None:
+                    cand[t] = None
+                continue
+            if o == self.outer and self.outer is not None:
+                if k in K_X_ACQ and (k == K['LOCK'] or v == 1):
+                    if owner is not None or sum(sharers) > 0:
+                        self.bad('mutex', 'exclusive acquisition by thread %d at line %d while the mutex is held' % (t, i))
+                    if any(r is not None for r in running):
+                        self.bad('exclusive', 'thread %d acquired the outer mutex at line %d while a functor is running' % (t, i))
+                    owner = t
+                    acq_pos[t] = i
+                elif k in K_S_ACQ and (k == K['LOCK_SH'] or v == 1):
+                    if owner is not None:
+                        self.bad('mutex', 'shared acquisition by thread %d at line %d while the mutex is owned exclusively' % (t, i))
+                    if any(r is not None for r in running):
+                        self.bad('exclusive', 'thread %d acquired a shared lock at line %d while a functor is running' % (t, i))
+                    sharers[t] += 1
+                    acq_pos[t] = i
+                elif k == K['UNLOCK']:
+                    owner = None
+                    acq_pos[t] = None
+                    if op is not None and op[0] == RELEASE:
+                        held[t] -= 1
+                elif k == K['UNLOCK_SH']:
+                    sharers[t] -= 1
+                    acq_pos[t] = None
+                    if op is not None and op[0] == RELEASE:
+                        held[t] -= 1
+                if k in K_TRYISH and v == 0 and cand[t] is not None and op is not None and k == K['TRYLOCK'] and op[0] in SUBMIT + SHARED_OPS + (LOAD,):
+                    # nothing is held and nobody else is active, yet a try-lock of the outer mutex failed
+                    self.bad('stranded', 'try-lock of thread %d failed at line %d although no lock was held and no call was in progress' % (t, i))
+                    cand[t] = None
+            if k == K['CALL']:
+                f = v
+                if f in call:
+                    self.bad('twice', 'functor %d invoked a second time at line %d (first: line %d)' % (f, i, call[f]))
+                call[f] = i
+                calls_by[f] = t
+                running[t] = f
+                if owner != t or sum(sharers) > 0:
+                    self.bad('exclusive', 'functor %d invoked by thread %d at line %d without exclusive ownership of the outer mutex (owner %s, %d shared holds)'
+                             % (f, t, i, owner, sum(sharers)))
+                if any(r is not None for u, r in enumerate(running) if u != t):
+                    self.bad('exclusive', 'functor %d invoked at line %d while another functor is running' % (f, i))
+                if f not in inv:
+                    self.bad('trace', 'functor %d invoked at line %d but never submitted' % (f, i))
+                if cand[t] is not None and cand[t]['op'][0] in SUBMIT and cand[t]['op'][1] == f:
+                    self.grant(cand[t], i, call, final=True)
+                    cand[t] = None
+            elif k == K['THROW']:
+                threw.add(running[t])
+                running[t] = None
+            elif k == K['WR_END']:
+                f = running[t]
+                if f is None:
+                    self.bad('payload', 'payload written outside a functor at line %d' % i)
+                else:
+                    if v != pay * 16 + f:
+                        self.bad('payload', 'functor %d wrote %d at line %d, expected %d (payload %d)' % (f, v, i, pay * 16 + f, pay))
+                    wend[f] = (i, v)
+                    running[t] = None
+                pay = v
+            elif k == K['RD_BEGIN'] and op is not None and op[0] == LOAD and running[t] is None and cand[t] is not None and acq_pos[t] is not None:
+                self.grant(cand[t], acq_pos[t], call, final=True)
+                cand[t] = None
+            elif k == K['RD_END']:
+                last_read[t] = v
+                if v != pay:
+                    self.bad('payload', 'thread %d read %d at line %d, the payload is %d' % (t, v, i, pay))
+            elif k == K['FAULT']:
+                self.bad('fault', 'overlapping payload windows: fault code %d by thread %d at line %d' % (v, t, i))
+        self.inv, self.ret, self.call, self.threw, self.wend, self.pay, self.held = inv, ret, call, threw, wend, pay, held
+
+    def grant(self, c, j, call, final):
+        missing = sorted(f for f in c['submitted'] if f not in call or call[f] > j)
+        if missing:
+            self.bad('stranded', 'access granted to thread %d at line %d (call began at line %d with no call in progress and no handle held) '
+                                 'but submitted functor(s) %s had not been applied' % (c['t'], j, c['i'], missing))
+
+
+calls_by = {}
+last_read = {}
+
+
+def _walk(case, lines):
+    key = id(lines)
+    if _walk.cache[0] != key:
+        calls_by.clear()
+        last_read.clear()
+        for t in range(len(case['progs'])):
+            last_read[t] = None
+        _walk.cache = (key, Walk(case, lines))
+    return _walk.cache[1]
+
+
+_walk.cache = (None, None)
+
+
+def _first(w, name):
+    for n, text in w.problems:
+        if n == name:
+            return text
+    return None
+
+
+def mon_fault(case, lines):
+    """a VPay window overlap (K_FAULT)"""
+    return _first(_walk(case, lines), 'fault')
+
+
+def mon_twice(case, lines):
+    """a functor invoked twice"""
+    return _first(_walk(case, lines), 'twice')
+
+
+def mon_exclusive(case, lines):
+    """a functor invoked without exclusive ownership, concurrently with another one, or a lock granted while one runs"""
+    return _first(_walk(case, lines), 'exclusive')
+
+
+def mon_order(case, lines):
+    """f's submit call returned before g's began, but g was applied and f was not applied before it"""
+    w = _walk(case, lines)
+    for f, r in w.ret.items():
+        for g, i in w.inv.items():
+            if r < i and g in w.call and (f not in w.call or w.call[f] > w.call[g]):
+                return ('functor %d (submit returned at line %d) was not applied before functor %d (submit began at line %d, applied at line %d)'
+                        % (f, r, g, i, w.call[g]))
+    return None
+
+
+def mon_stranded(case, lines):
+    """an access made with no call in progress and no handle held did not apply every submitted functor first"""
+    return _first(_walk(case, lines), 'stranded')
+
+
+def mon_lost(case, lines):
+    """finished run: submitted = applied + still queued; a non-empty queue is announced by the flag; nothing is left locked"""
+    w = _walk(case, lines)
+    if w.verdict != 0 or w.final is None:
+        return None
+    pay, flag, qlen, free, nsh = w.final
+    sub, done = set(w.inv), set(w.call)
+    if len(sub) - len(done & sub) != qlen:
+        return 'finished run: %d functors submitted, %d applied, but %d left in the queue (lost: %s)' % (len(sub), len(done), qlen, sorted(sub - done))
+    if qlen > 0 and flag != 1:
+        return 'finished run: %d functors are queued but the pending flag is down' % qlen
+    if pay != w.pay:
+        return 'final payload %d differs from the last value written %d' % (pay, w.pay)
+    digits = []
+    x = pay
+    while x > 0:
+        digits.append(x % 16)
+        x //= 16
+    if sorted(digits) != sorted(f for f in done if f not in w.threw):
+        return 'final payload log %s is not the set of functors applied without exception %s' % (digits[::-1], sorted(f for f in done if f not in w.threw))
+    alive = sum(w.held)
+    if (free != 1 or nsh != 0) and alive == 0:
+        return 'finished run with no client handle alive, but the outer mutex is still held (free=%d, sharers=%d)' % (free, nsh)
+    return None
+
+
+def mon_payload(case, lines):
+    """every functor writes 16 * current + fid, every reader sees the current value, load returns what it read"""
+    return _first(_walk(case, lines), 'payload')
+
+
+def mon_future(case, lines):
+    """future ready / get results against what the functor did"""
+    return _first(_walk(case, lines), 'future')
+
+
+def mon_exn(case, lines):
+    """an exception reaches the caller exactly for a direct-path modify_detach whose functor threw"""
+    return _first(_walk(case, lines), 'exn')
+
+
+def mon_lock_leaked(case, lines):
+    """a thread back at top level still owns the outer mutex (other than through a handle on a plain mutex)"""
+    return _first(_walk(case, lines), 'lock_leaked')
+
+
+def mon_deadlock(case, lines):
+    """deadlock is legitimate only behind a live client handle on a plain mutex"""
+    w = _walk(case, lines)
+    if w.verdict == 2:
+        return 'the run did not terminate within the fuel bound'
+    if w.verdict == 1 and (shcap(case['cfg']) or sum(w.held) == 0):
+        return 'deadlock although %s' % ('the mutex is shared-capable' if shcap(case['cfg']) else 'no client handle is alive')
+    return None
+
+
+def mon_seq_cst(case, lines):
+    """every atomic operation carries memory_order_seq_cst"""
+    for l in lines:
+        if len(l) == 5 and l[0] >= 0 and 2 <= l[1] <= 7 and l[4] != 5:
+            return 'atomic operation with memory order %d: %s' % (l[4], l)
+    return None
+
+
+def mon_trace(case, lines):
+    w = _walk(case, lines)
+    return _first(w, 'trace') or _first(w, 'mutex')
+
+
+MONITORS = {'fault': mon_fault, 'twice': mon_twice, 'exclusive': mon_exclusive, 'order': mon_order, 'stranded': mon_stranded,
+            'lost': mon_lost, 'payload': mon_payload, 'future': mon_future, 'exn': mon_exn, 'lock_leaked': mon_lock_leaked,
+            'deadlock': mon_deadlock, 'seq_cst': mon_seq_cst, 'trace': mon_trace}
